@@ -169,3 +169,18 @@ Section WithAtan2.
     - match goal with |- _ <= ?e <= _ => replace e with (h - (a1 * b2 - a2 * b1)) by ring end. lra.
   Qed.
 End WithAtan2.
+
+(** Non-vacuity witnesses for the hypotheses of the two Euler theorems. *)
+Lemma rotation_I3_main : rotation I3 /\ horiz I3 > 1 / 1000.
+Proof.
+  split.
+  - unfold rotation, orthonormal, det, I3; cbn [aa ab ac ba bb bc ca cb cc]. repeat split; ring.
+  - unfold horiz, I3; cbn [aa ab]. replace (1 * 1 + 0 * 0) with 1 by ring. rewrite sqrt_1. lra.
+Qed.
+Lemma rotation_pole_lock :
+  rotation (Mat 0 0 (-1)  0 1 0  1 0 0) /\ horiz (Mat 0 0 (-1)  0 1 0  1 0 0) <= 1 / 1000.
+Proof.
+  split.
+  - unfold rotation, orthonormal, det; cbn [aa ab ac ba bb bc ca cb cc]. repeat split; ring.
+  - unfold horiz; cbn [aa ab]. replace (0 * 0 + 0 * 0) with 0 by ring. rewrite sqrt_0. lra.
+Qed.
